@@ -14,7 +14,7 @@ from pyvc.engine import (Contract, Val, VInt, VBool, VStr, VObj, VFunc, VOpaque,
 
 
 class Apply(Contract):
-    props = ('C03', 'C09', 'C10', 'C14')
+    props = ('C03', 'C09', 'C10', 'C12', 'C14')
     file = 'ombott/response.py'
     qualname = 'HTTPResponse.apply'
     assumptions = ('dict.clear() / dict.update(d) as usual: afterwards the receiver holds exactly the items of d',)
@@ -42,7 +42,14 @@ class Apply(Contract):
         def update(X, args, kwargs):
             c.ops.append(('update', args[0], args[1]))
             return NONE
-        self.stubs = {'Dict.clear': clear, 'Dict.update': update}
+        def hd_op(name):
+            def f(X, args, kwargs):
+                # going through a HeaderDict view (thread-local: not initialised on this thread for a long-lived error object)
+                c.ops.append((name + '_via_header_view',) + tuple(args))
+                return NONE
+            return f
+        self.stubs = {'Dict.clear': clear, 'Dict.update': update, 'HeaderDict.clear': hd_op('clear'), 'HeaderDict.update': hd_op('update')}
+        self.me.fields['headers'] = VObj('HeaderDict', {'dict': self.src})
         return {'self': self.me, 'response': self.resp}
 
     def post(self, X, ret):
